@@ -2,7 +2,7 @@
 From Coq Require Import QArith Qcanon List Bool Arith Permutation.
 From PV.Base Require Import Sums.
 From PV.Model Require Import NsiLang Split Measures MatAlg.
-From PV.Proofs Require Import NsiLang Split Measures MatAlgGen.
+From PV.Proofs Require Import NsiLang Split Measures MatAlgGen DistFn.
 From PV.Gen Require Import NsiTerms.
 Import ListNotations.
 
@@ -147,6 +147,24 @@ Theorem C02_source_distance_global_invariant G' G phi B : pullback G' G phi ->
   sden G' (gen_nsi_global_efficiency B) = sden G (gen_nsi_global_efficiency B).
 Proof. exact (source_distance_global_invariant G' G phi B). Qed.
 Print Assumptions C02_source_distance_global_invariant.
+
+(* the translator reads an entrywise function of D = path_lengths() + Id with
+   value 0 at inf (D with its inf entries overwritten, 1 / D, 2 ** (-D)) as
+   MDistFn f: sound on reflexive graphs, where the entry is f at the first
+   step that reaches the pair, and 1 / Dist = InvDist entry by entry *)
+Theorem C02_distance_function_reading G env a b f B k0 :
+  (forall u, ap G u u = true) -> (var env b < gn G)%nat -> (k0 < B)%nat ->
+  reach G k0 (var env a) (var env b) = true ->
+  (forall k, (k < k0)%nat -> reach G k (var env a) (var env b) = false) ->
+  eval G env (dsum f B a b) = f k0.
+Proof. intros R Hb. exact (dsum_first G R env a b Hb f B k0). Qed.
+Print Assumptions C02_distance_function_reading.
+
+Theorem C02_inverse_distance G env a b B :
+  (forall u, ap G u u = true) -> (var env b < gn G)%nat ->
+  eval G env (InvDist B a b) = (1 / eval G env (Dist B a b))%Qc.
+Proof. intros R Hb. exact (inv_dist G R env a b Hb B). Qed.
+Print Assumptions C02_inverse_distance.
 
 Example C02_source_example :
   let r := raw_of [[false; true; false]; [true; false; true]; [false; true; false]]
